@@ -138,7 +138,7 @@ Section Check.
         end
     | EAssign x a =>
         match t_lookup x G, type_expr G a with
-        | Some (t, false), Some ta => if assignable t ta then Some t else None
+        | Some (t, false), Some ta => if assignable t ta then Some ta else None
         | _, _ => None
         end
     | _ => None        (* the object layer is checked by ClassTyping.v *)
